@@ -1514,6 +1514,16 @@ class OEvaluator(Evaluator):
                 name = ast.unparse(st.exc.func if isinstance(st.exc, ast.Call) else st.exc)
                 if name not in _EXC_NAMES:
                     name = name.split(".")[-1]
+                # the arguments of the exception are evaluated before it is raised: what they call, runs (a message helper that
+                # opens, imports, records).  Pure formatting the evaluator cannot render is of no consequence and is skipped;
+                # a call of a named function that cannot be evaluated leaves the world undecided.
+                if isinstance(st.exc, ast.Call):
+                    for a in list(st.exc.args) + [k.value for k in st.exc.keywords]:
+                        named_calls = [c for c in ast.walk(a) if isinstance(c, ast.Call) and isinstance(c.func, ast.Name) and c.func.id not in _PURE_FORMATTING]
+                        dotted_calls = [c for c in ast.walk(a) if isinstance(c, ast.Call) and isinstance(c.func, ast.Attribute) and isinstance(base_name(c.func), str) and base_name(c.func) not in self.env and base_name(c.func) in self.module.imports]
+                        if not named_calls and not dotted_calls:
+                            continue
+                        self.ev(a)
             if __import__("os").environ.get("SA_DEBUG_RAISE"):
                 print(f"[raise] {self.module.name}:{getattr(st, 'lineno', '?')} {ast.unparse(st)[:120]}", file=__import__("sys").stderr)
             raise PyRaise(name)
@@ -1646,6 +1656,16 @@ class OEvaluator(Evaluator):
                     raise PyRaise(type(ex).__name__)
             return
         super()._block([st])
+
+
+_PURE_FORMATTING = {"str", "repr", "len", "int", "type", "hex", "oct", "bin", "format", "ascii", "bool", "tuple", "list", "sorted", "max", "min", "sum", "isinstance", "float", "bytes", "chr", "ord", "abs", "round", "set", "dict", "enumerate", "zip", "range", "reversed", "any", "all", "id"}
+
+
+def base_name(e: ast.AST):
+    """The root name of a dotted expression (`a` in a.b.c), or None."""
+    while isinstance(e, ast.Attribute):
+        e = e.value
+    return e.id if isinstance(e, ast.Name) else None
 
 
 class _Lit(ast.AST):
